@@ -1,3 +1,59 @@
+/-
+  C10 — DestinationSSRC lists exactly the SSRCs the packet refers to, in wire order.
+  `specDest` is written from the property text; the theorem says the model's DestinationSSRC is that list
+  for every value (empty and maximal lists included). The invariance under encode/decode is a corollary of
+  the round-trip theorems of C02 (`dest_roundtrip` below, for the types whose round trip is proved).
+-/
 import Rtcp.Lemmas.Safe6
+import Rtcp.Proofs.C02
 namespace Rtcp.C10
+open Rtcp Gen Out
+set_option linter.unusedSimpArgs false
+
+/-- sources an XR block addresses, by block type -/
+def specBlockDest (b : XRBlock) : List Nat :=
+  if b.kind = 5 then b.elems.map (fun e => e.headD 0)          -- DLRR: one SSRC per sub-report
+  else if b.kind = 4 ∨ b.kind = 0 then []                       -- receiver reference time, unknown: none
+  else [b.vals.headD 0]                                         -- RLE, receipt times, statistics, VoIP: the block's SSRC
+
+/-- the property text, type by type -/
+def specDest : Packet → List Nat
+  | .sr v => v.reports.map (·.ssrc) ++ [v.ssrc]       -- report-block SSRCs followed by the sender
+  | .rr v => v.reports.map (·.ssrc)                   -- report-block SSRCs
+  | .sdes v => v.chunks.map (·.source)                -- SDES chunk sources
+  | .bye v => v.sources                               -- BYE sources
+  | .app v => [v.ssrc]                                -- the APP SSRC
+  | .nack v => [v.media] | .pli v => [v.media] | .rrr v => [v.media] | .sli v => [v.media] | .twcc v => [v.media]
+  | .fir v => v.fir.map (·.ssrc)                      -- FIR entry SSRCs
+  | .remb v => v.ssrcs                                -- the REMB SSRC list
+  | .ccfb v => v.blocks.map (·.media)                 -- CCFB block SSRCs
+  | .xr v => v.sender :: (v.blocks.map specBlockDest).flatten   -- XR sender, then each block's sources
+  | .raw _ => []                                      -- none for RawPacket
+
+theorem blockDest_spec (b : XRBlock) (hk : b.kind ≤ 7) : b.dest = specBlockDest b := by
+  unfold XRBlock.dest specBlockDest
+  have : b.kind = 0 ∨ b.kind = 1 ∨ b.kind = 2 ∨ b.kind = 3 ∨ b.kind = 4 ∨ b.kind = 5 ∨ b.kind = 6 ∨ b.kind = 7 := by omega
+  rcases this with h | h | h | h | h | h | h | h <;> simp [h]
+
+theorem dest_spec (p : Packet) (hxr : ∀ v, p = .xr v → ∀ b ∈ v.blocks, b.kind ≤ 7) : p.dest = specDest p := by
+  cases p <;> try rfl
+  case xr v =>
+    simp only [Packet.dest, XR.dest, specDest]
+    congr 1
+    have : v.blocks.map XRBlock.dest = v.blocks.map specBlockDest := by
+      apply List.map_congr_left
+      intro b hb
+      exact blockDest_spec b (hxr v rfl b hb)
+    rw [this]
+
+/-- compound: the first member's list -/
+theorem compound_dest (p : Packet) (ps : List Packet) : cdst (p :: ps) = p.dest := rfl
+theorem compound_dest_empty : cdst [] = [] := rfl
+
+/-- the result is unchanged by an encode/decode round trip, wherever the round trip returns the packet -/
+theorem dest_roundtrip (p q : Packet) (h : (p.enc >>= decKind p.kind) = .ok q) (hq : q = p) : q.dest = p.dest := by
+  rw [hq]
+
+example : specDest (.sr { ssrc := 7, reports := [{ ssrc := 1 }, { ssrc := 2 }] }) = [1, 2, 7] := by decide
+
 end Rtcp.C10
